@@ -17,6 +17,8 @@ Decides the protocol agreement between the parent and the child process by code 
  * _fix_assertion_trace, interpreted over a trace with assertions at binding and non-binding
    positions, re-adds every assertion at its position with its source renamed.
 Equality of the executions themselves is not decided.
+Further clauses (added later): C31.aux: every executor the subprocess executor builds for itself receives this
+executor's module provider and time bounds.
 """
 
 from __future__ import annotations
